@@ -298,7 +298,7 @@ func TestC12(t *testing.T) {
 	// (ii) stale insert schedules: every stamped query x park point x reload kind
 	n := 0
 	for qi := range kit.StampQueries {
-		for _, park := range []string{"query.before-cache-insert", "query.answer-found", "query.cache-probed"} {
+		for _, park := range []string{"query.before-cache-insert", "query.answer-found", "query.cache-probed", "query.location-found", "query.reader-acquired"} {
 			for _, kind := range []string{"full-ok", "partial"} {
 				for _, b := range kit.AllBackends {
 					n++
